@@ -303,7 +303,7 @@ const STRIDE: u64 = 10_000_000;
 fn bases_for(tier: Tier) -> u64 {
     match tier {
         Tier::Quick => 8,
-        Tier::Thorough => 64,
+        Tier::Thorough => 32,
     }
 }
 
